@@ -23,7 +23,7 @@ RULE = ('seeded operation histories (append/appendleft/pop/popleft/clear/len and
 ASSUMPTIONS = ['sequential histories: under concurrency tokens < events is legitimately transient and the obligation is C04\'s']
 PROBES = ['post_on_full', 'lifo_on_full', 'clear_on_empty', 'clear_racing_posts']
 PLAN = {
-  'quick': {'strata': {'locking-deque': 6000, 'active-object': 2500, 'queued-chart': 2500, 'concurrent': 3000}, 'wall_s': 300, 'chunk': 200, 'min_conclusive': 1000},
+  'quick': {'strata': {'locking-deque': 6000, 'active-object': 2500, 'queued-chart': 2500, 'concurrent': 6000}, 'wall_s': 300, 'chunk': 200, 'min_conclusive': 1000},
   'thorough': {'strata': {'locking-deque': 200000, 'active-object': 60000, 'queued-chart': 60000, 'concurrent': 80000}, 'wall_s': 900, 'chunk': 500, 'min_conclusive': 1000},
 }
 OPS = ['append', 'appendleft', 'pop', 'popleft', 'clear', 'len', 'consume']
